@@ -372,6 +372,7 @@ func runWalletHist(c *Ctx) {
 	witnessF12(c)
 	witnessF13(c)
 	witnessF10(c)
+	witnessF16(c)
 	for h := 0; h < n; h++ {
 		runHistory(c, h)
 	}
@@ -451,6 +452,52 @@ func witnessF13(c *Ctx) {
 		b.pruneTokens()
 		hw.after(fmt.Sprintf("witness-f13/receive-%d/%s", k+1, errTag(err)))
 	}
+}
+
+// witnessF16: a Melt whose request the mint refuses (the fee estimate of swapToSend is too low at 1000 ppk, K6)
+// leaves its proofs pending under the quote id; the same quote melted again with other proofs is PAID and
+// DeletePendingProofsByQuoteId removes the first attempt's proofs as well, although they are unspent (C17).
+func witnessF16(c *Ctx) {
+	hw, err := newHistWorld(c, "f16", []uint{1000}, 1)
+	if err != nil {
+		c.Disagree([]string{"C17"}, "setup-f16", err.Error(), "", nil)
+		return
+	}
+	hw.model = newBooksModel(hw)
+	defer hw.close()
+	b := hw.b
+	w, m := b.wallets[0], b.mints[0]
+	b.begin("mint", 0, "mint w0 m0 100")
+	_, err = b.OpMint(w, m, 100)
+	hw.model.mint(hw, w, m, 100, err)
+	hw.after("witness-f16/mint")
+	for _, sd := range []struct {
+		amt  uint64
+		fees bool
+	}{{6, false}, {3, true}, {4, false}} {
+		b.begin("send", 0, fmt.Sprintf("send w0 m0 %d fees=%v", sd.amt, sd.fees))
+		t, err := b.OpSend(w, m, sd.amt, sd.fees)
+		hw.model.send(hw, w, m, sd.amt, sd.fees, t, err)
+		hw.after("witness-f16/send/" + errTag(err))
+	}
+	b.begin("melt", 0, "melt w0 m0 16 ln=paid (first attempt)")
+	q, err := b.OpMeltQuote(w, m, 16)
+	if err != nil {
+		return
+	}
+	st, err := b.OpMelt(w, m, q.Quote, meltScript("paid"))
+	hw.model.melt(hw, w, m, 16, q.Quote, "paid", st, err)
+	hw.after("witness-f16/melt-1/" + st + "/" + errTag(err))
+	if err == nil {
+		c.Hist("witness-f16", "first-attempt-not-refused")
+		return
+	}
+	b.begin("melt", 0, "melt w0 m0 16 ln=paid (same quote again)")
+	b.opKind = "melt-retry"
+	b.hint = "C17/melt/retry-drops-first-attempt-proofs"
+	st, err = b.OpMelt(w, m, q.Quote, meltScript("paid"))
+	hw.model.meltAgain(hw, w, m, q.Quote, "paid", st, err)
+	hw.after("witness-f16/melt-2/" + st + "/" + errTag(err))
 }
 
 // witnessF10: a wallet with more than 200 outputs on one keyset is restored; the restored wallet continues;
